@@ -79,6 +79,11 @@ func Verif_C13_Imports(n int) {
 				roots = append(roots, pkgs[i])
 			}
 		}
+		// the package directories as the filesystem model sees them (for the directory hashes)
+		for _, nm := range names {
+			verifsym.FSPut(root+"/"+nm+"/"+nm+".go", "package "+nm+"\n")
+			verifsym.FSPut(root+"/"+nm+"/.hidden.json", "{}\n")
+		}
 		verifsym.Provide("packages.Load", roots)
 		u, err = Load(patterns)
 	} else {
@@ -91,6 +96,7 @@ func Verif_C13_Imports(n int) {
 				}
 			}
 			verifsym.FSPut(filepath.Join(root, nm, nm+".go"), src)
+			verifsym.FSPut(filepath.Join(root, nm, ".hidden.json"), "{}\n") // a dot-file is part of the directory too
 		}
 		os.Setenv("GOFLAGS", "-mod=mod")
 		u, err = Load(patterns, WithDir(root))
